@@ -22,7 +22,7 @@ MANIFEST = {
             "flat top (never before it), gz.delay and the ramps are on the gradient raster, and the rephaser area "
             "is minus (flat area after the centre + half the ramp area).  The arithmetic expressions the theorems "
             "are about are re-translated from the five maker sources on every run; the extracted model is run "
-            "against the implementation on ~1000 (quick) / 30000 (thorough) calls and the property is evaluated "
+            "against the implementation on ~1000 (quick) / 30000 (thorough) calls (pulses of up to 4000 / 8000 samples; the runner executes fast forms proved equal to the specification forms, C13_fast_form_*) and the property is evaluated "
             "with exact Fractions on every returned event.",
     'note': 'Trusted: Coq kernel; translator patterns for the makers (expressions translated, guards compared as '
             'text); extraction + driver; the envelope functions (np.sinc, np.exp, np.cos), np.pi and binary64 '
@@ -46,7 +46,11 @@ RULE = ('calls drawn per maker (sinc, gauss, block, arbitrary, adiabatic timing)
 TRUSTED = ['RF envelope functions (np.sinc, np.exp, np.cos), np.pi and binary64 rounding are outside the model: the '
            'envelope is an arbitrary list in the theorems; the correspondence feeds the implementation\'s own samples',
            'make_trapezoid is modelled locally for the two argument sets used by the RF makers (C11 models it in full)']
-ASSUMPTIONS = ['slice-gradient theorems assume: gradient raster > 0 and >= eps (1e-9 s), max_grad > 0, duration >= 0; flip theorems '
+ASSUMPTIONS = ['a one-raster ceil() disagreement between binary64 and exact arithmetic is accepted only when the implementation\'s '
+               'k = gz.delay/raster lies in the 1e-6 bracket of C13_ceil_threshold_bracket, which proves every clause for either outcome',
+               'make_adiabatic_pulse documents no peak amplitude (adiabaticity has no stated relation to the returned magnitude): '
+               'no amplitude clause is claimed for it; grid, shape_dur, delay, use and slice gradients are',
+               'slice-gradient theorems assume: gradient raster > 0 and >= eps (1e-9 s), max_grad > 0, duration >= 0; flip theorems '
                'assume sum(envelope) != 0, pi > 0; make_arbitrary_rf delivers the flip angle for a user signal of positive sum '
                '(minus the flip angle for a negative sum: abs() in its scaling) - recorded as a finding, not as a failure',
                'ceil()/round() decisions are taken on exact rationals by the model and on binary64 by the code: when the '
@@ -101,15 +105,26 @@ def gen_use(rng):
 
 
 def gen_n(rng, big):
-    """number of samples; the extracted model costs ~0.35 ms per sample (exact rationals on inductive positives)"""
+    """number of samples; the extracted model (fast form, C13_fast_form_*) costs ~0.1 ms per sample; realistic pulse
+    lengths (1-4 ms at 1 us raster) are part of the quick tier"""
     k = rng.random()
     if k < 0.15:
         return rng.randint(1, 8)
-    if k < 0.85:
-        return rng.randint(9, 100)
-    if k < 0.98:
-        return rng.randint(101, 1000 if big else 400)
-    return rng.randint(401, 6000 if big else 1500)
+    if k < 0.70:
+        return rng.randint(9, 200)
+    if k < 0.91:
+        return rng.randint(201, 1000)
+    return rng.randint(1001, 8000 if big else 4000)
+
+
+def trap_n(rng, deff, n):
+    """a sample count n' whose binary64 quotient (n'*deff)/deff falls just BELOW n' (truncation instead of rounding
+    would lose a sample there); falls back to n"""
+    for _ in range(300):
+        m = rng.randint(3, 600)
+        if (m * deff) / deff < m:
+            return m
+    return n
 
 
 def gen_thickness(rng, bandwidth, mg):
@@ -126,6 +141,8 @@ def gen_shaped(rng, big, maker):
     dwell = 0.0 if dwell_mult == 0 else dwell_mult * sy['rfr']
     deff = dwell if dwell else sy['rfr']
     n = gen_n(rng, big)
+    if rng.random() < 0.1:
+        n = trap_n(rng, deff, n)
     duration = n * deff
     tbw = rng.choice([4, 4, 2, 1, 8, 6.5, round(rng.uniform(0.5, 12), 3)])
     bw = 0.0
@@ -151,22 +168,31 @@ def gen_shaped(rng, big, maker):
 def gen_block(rng, big):
     sy = gen_sys(rng)
     n = gen_n(rng, big)
+    if rng.random() < 0.2:
+        n = trap_n(rng, sy['rfr'], n)
     c = {'maker': 'block', 'sys': sy, 'flip': gen_flip(rng), 'delay': gen_delay(rng, sy),
          'duration': n * sy['rfr'], 'bw': None, 'tbw': None,
          'freq': rng.choice([0.0, round(rng.uniform(-5e3, 5e3), 2)]), 'phase': rng.choice([0.0, round(rng.uniform(-3.2, 3.2), 4)]),
          'use': gen_use(rng), 'stream': 'valid'}
     k = rng.random()
     if k < 0.12:
-        # bandwidth form; choose the bandwidth so that the duration is on the raster: 1/(4*bw) = n*raster
+        # bandwidth form; choose the bandwidth so that the derived duration is on the raster: 1/(4*bw) = n*raster
         c['duration'] = None
         c['bw'] = 1.0 / (4 * n * sy['rfr'])
         c['stream'] = 'bw'
-    elif k < 0.2:
+    elif k < 0.22:
+        # bandwidth + time-bandwidth product, derived duration tbw/bw = n*raster
         c['duration'] = None
-        c['bw'] = round(rng.uniform(100, 5000), 1)
+        c['tbw'] = rng.choice([1.0, 2.0, 4.0, round(rng.uniform(0.5, 8), 2)])
+        c['bw'] = c['tbw'] / (n * sy['rfr'])
+        c['stream'] = 'bw'
+    elif k < 0.36:
+        # derived duration in general OFF the raster: delivers flip*N*raster/duration (C13_block_flip_general)
+        c['duration'] = None
+        c['bw'] = round(rng.uniform(100, 20000), 1)
         c['tbw'] = rng.choice([None, 0.0, round(rng.uniform(0.5, 8), 2)])
         c['stream'] = 'bw-offraster'
-    elif k < 0.23:
+    elif k < 0.39:
         c['duration'] = None
         c['stream'] = 'default'
     return c
@@ -720,9 +746,38 @@ def compare_one(ctx, c, r, mo):
     return diffs
 
 
+BRACKET_DELTA = Fraction(1, 10 ** 6)
+
+
+def in_bracket(c, r):
+    """C13_ceil_threshold_bracket: the implementation's gz.delay = k*raster with k in the delta-bracket around
+    e = max(rf.delay_before_coupling - gz.rise_time, 0) (delta = 1e-6); then every clause holds for its outcome too"""
+    gz = r['gz']
+    ra = F(c['sys']['gr'])
+    kq = F(gz['delay']) / ra
+    k = round(kq)
+    if abs(kq - k) > BRACKET_DELTA or k < 0:
+        return False
+    d0 = F(max(c['delay'], c['sys']['dead']))
+    e = max(d0 - F(gz['rise_time']), Fraction(0))
+    return e - BRACKET_DELTA * ra <= k * ra < e + ra + BRACKET_DELTA * ra
+
+
 def compare_model(ctx, batch):
     lines = [model_line(c, r) for c, r in batch]
     outs = ctx.model(lines)
+    # the specification (direct) forms are run next to the fast forms on the short pulses: identical results
+    direct = [(i, l) for i, ((c, r), l) in enumerate(zip(batch, lines))
+              if c['maker'] in ('sinc', 'gauss', 'arb') and l.split()[0] in ('rf.shaped', 'rf.arb')
+              and (len(r['signal']) if r['ok'] else 0) <= 40 and (len(c.get('signal', ())) <= 40)]
+    if direct:
+        douts = ctx.model([l.replace('rf.shaped', 'rf.shaped_direct', 1).replace('rf.arb ', 'rf.arb_direct ', 1) for _, l in direct])
+        for (i, _), do in zip(direct, douts):
+            ctx.count('corr.direct-vs-fast')
+            a, b2 = Toks(outs[i]), Toks(do)
+            same = len(a.t) == len(b2.t) and all(_tok_eq(x, y) for x, y in zip(a.t, b2.t))
+            if not same:
+                ctx.mismatch('fast-vs-direct', batch[i][0], {'fast': outs[i][:200], 'direct': do[:200]})
     for (c, r), o in zip(batch, outs):
         mo = parse_model(c, o)
         diffs = compare_one(ctx, c, r, mo)
@@ -739,11 +794,23 @@ def compare_model(ctx, batch):
                 allowed |= {'gz.delay', 'gz.end', 'delay', 'end'}
             if 'gzr-timing' in fl:
                 allowed |= {'gzr.amplitude', 'gzr.rise_time', 'gzr.flat_time', 'gzr.fall_time', 'gzr.flat_area', 'gzr.end'}
-            if fields <= allowed:
+            if fields <= allowed and in_bracket(c, r):
+                # a one-raster disagreement of ceil() on a threshold; the implementation's k lies in the delta-bracket,
+                # so by C13_ceil_threshold_bracket its outcome satisfies every clause (and the oracle has passed)
                 ctx.benign_divergence('ceil-threshold', case_brief(c), {'flags': sorted(fl), 'diffs': diffs[:4]})
                 ctx.count('corr.benign.' + '+'.join(sorted(fl)))
                 continue
         ctx.mismatch(c['maker'], c, {'diffs': diffs[:6]})
+
+
+def _tok_eq(x, y):
+    if x == y:
+        return True
+    try:
+        from common import tokq
+        return tokq(x) == tokq(y)
+    except Exception:
+        return False
 
 
 def case_brief(c):
